@@ -68,7 +68,7 @@ macro_rules! paserk_h {
     ($($name:ident: $t:ty, $hdr:expr, $l:expr, $need:expr, $fix:expr, $unw:literal;)*) => {$(
         #[kani::proof]
         #[kani::unwind($unw)]
-        fn $name() { paserk_strict::<$t, { $l }, { $fix }>($hdr, $need); }
+        pub fn $name() { paserk_strict::<$t, { $l }, { $fix }>($hdr, $need); }
     )*};
 }
 
@@ -117,7 +117,7 @@ paserk_h! {
 /// Key<V,K>::from_str == KeyText::from_str then V::decode on exactly the decoded bytes
 #[kani::proof]
 #[kani::unwind(20)]
-fn key_fromstr_is_keytext_then_decode() {
+pub fn key_fromstr_is_keytext_then_decode() {
     // header fixed (see paserk_strict); the header check of Key::from_str is KeyText::from_str's
     let t: [u8; 4] = kani::any();
     let s: [u8; 13] = [b'k', b'4', b'.', b'l', b'o', b'c', b'a', b'l', b'.', t[0], t[1], t[2], t[3]];
@@ -156,7 +156,7 @@ impl core::hash::Hasher for H64 {
 }
 #[kani::proof]
 #[kani::unwind(64)]
-fn keyid_roundtrip_eq_ord_hash() {
+pub fn keyid_roundtrip_eq_ord_hash() {
     use core::hash::Hash;
     // build two ids by parsing reference-encoded symbolic bytes
     let a: [u8; 33] = kani::any();
@@ -281,7 +281,7 @@ macro_rules! token_h {
         #[kani::proof]
         #[kani::unwind($unw)]
         #[kani::stub(core::slice::memchr::memchr, crate::oracle::$stub)]
-        fn $name() { token_strict::<{ $l }, { $fix }>($dot); }
+        pub fn $name() { token_strict::<{ $l }, { $fix }>($dot); }
     )*};
 }
 token_h! {
@@ -360,17 +360,17 @@ where
 }
 #[kani::proof]
 #[kani::unwind(64)]
-fn c13_id_composition_local() {
+pub fn c13_id_composition_local() {
     id_composition::<Local>(b".lid.", b"k4.local.");
 }
 #[kani::proof]
 #[kani::unwind(64)]
-fn c13_id_composition_secret() {
+pub fn c13_id_composition_secret() {
     id_composition::<Secret>(b".sid.", b"k4.secret.");
 }
 #[kani::proof]
 #[kani::unwind(64)]
-fn c13_id_composition_public() {
+pub fn c13_id_composition_public() {
     id_composition::<Public>(b".pid.", b"k4.public.");
 }
 
@@ -379,7 +379,7 @@ fn c13_id_composition_public() {
 // ------------------------------------------------------------------------------------------------
 #[kani::proof]
 #[kani::unwind(24)]
-fn c10_header_table() {
+pub fn c10_header_table() {
     use paseto_core::key::{KeyType, SealingKey};
     let heads: [&str; 11] = [
         <Local as KeyType>::HEADER,
@@ -419,7 +419,7 @@ fn c10_header_table() {
 /// seal — tails of 3, 2, 2 and 4 characters): at most one accepts
 #[kani::proof]
 #[kani::unwind(15)]
-fn c10_no_string_accepted_twice() {
+pub fn c10_no_string_accepted_twice() {
     let s: [u8; 12] = kani::any();
     let st = unsafe { core::str::from_utf8_unchecked(&s) };
     let mut n = 0u32;
